@@ -36,6 +36,7 @@ type solveCfg struct {
 	// other solvers as well; a solver that answers sat where another answered
 	// unsat is a disagreement, reported as an error (never silently accepted)
 	crossCheck bool
+	mustDecide map[string]bool // baseline obligations (fast on the unchanged tree)
 }
 
 func buildQuery(fr *FuncResult, o *Obligation, values []string) string {
@@ -258,6 +259,26 @@ func solveAll(cfg *solveCfg, frs []*FuncResult) {
 	}
 	close(ch2)
 	wg.Wait()
+	// last chance: an obligation that is known to discharge within seconds on
+	// the unchanged tree and still has no answer is run alone (nothing else in
+	// flight) with a five minute limit; at most a few, ten minutes in total
+	deadline := time.Now().Add(10 * time.Minute)
+	cfg3 := *cfg
+	cfg3.quickS = cfg2.timeoutS
+	cfg3.timeoutS = 300
+	n := 0
+	for _, j := range again {
+		if j.o.Status != "timeout" && j.o.Status != "unknown" {
+			continue
+		}
+		if !cfg.mustDecide[j.o.Name] || n >= 4 || time.Now().After(deadline) {
+			continue
+		}
+		n++
+		first := j.o.Secs
+		solveOne(&cfg3, j.fr, j.o, modelValues(j.fr, j.o))
+		j.o.Secs += first
+	}
 }
 
 // modelValues: constants whose values are requested with a sat answer
